@@ -26,6 +26,7 @@ at the top-level directory.
  * Purpose:		Sparse BLAS 2, using some dense BLAS 2 operations.
  */
 
+#include <ctype.h>
 #include "slu_cdefs.h"
 
 /*! \brief Solves one of the systems of equations A*x = b,   or   A'*x = b
@@ -103,6 +104,13 @@ sp_ctrsv(char *uplo, char *trans, char *diag, SuperMatrix *L,
     int_t luptr, istart, i, k, iptr;
     singlecomplex *work;
     flops_t solve_ops;
+
+    /* The flags may be given in either case, as documented. */
+    char uplo1[2], trans1[2], diag1[2];
+    uplo1[0] = (char) toupper((unsigned char) uplo[0]);   uplo1[1] = '\0';
+    trans1[0] = (char) toupper((unsigned char) trans[0]); trans1[1] = '\0';
+    diag1[0] = (char) toupper((unsigned char) diag[0]);   diag1[1] = '\0';
+    uplo = uplo1; trans = trans1; diag = diag1;
 
     /* Test the input parameters */
     *info = 0;
@@ -474,6 +482,10 @@ sp_cgemv(char *trans, singlecomplex alpha, SuperMatrix *A, singlecomplex *x,
     singlecomplex comp_zero = {0.0, 0.0};
     singlecomplex comp_one = {1.0, 0.0};
 
+    /* TRANS may be given in either case, as documented. */
+    char trans1[2];
+    trans1[0] = (char) toupper((unsigned char) trans[0]); trans1[1] = '\0';
+    trans = trans1;
     notran = ( strncmp(trans, "N", 1)==0 || strncmp(trans, "n", 1)==0 );
     Astore = A->Store;
     Aval = Astore->nzval;
